@@ -54,7 +54,10 @@ class Interp:
                 H.kind(x) == "Call" and (x.get("def") or "") in self.printers and (x.get("def") or "") in hirs and
                 any(len(m["arms"]) >= 5 for m in H.matches_on(hirs[x["def"]].get("body") or {}, "ast::Expr")) for x in H.walk(body_))
             big = big or wraps_general
-            dispatches = bool(H.matches_on(body_, "ast::Expr"))
+            # a `matches!(node, Kind)` test (two arms, boolean literals) is a condition, not a dispatch on the node kind
+            def is_test(m_):
+                return len(m_["arms"]) == 2 and all(H.kind(H.strip(a_["body"])) == "Lit" and H.strip(a_["body"]).get("lk") == "bool" for a_ in m_["arms"])
+            dispatches = any(not is_test(m_) for m_ in H.matches_on(body_, "ast::Expr"))
             c[d] = (not big) and (nodes >= 2 or (nodes == 1 and not dispatches)) and hf.get("output") == "alloc::string::String" and "&mut alloc::string::String" not in " ".join(hf.get("inputs", []))
         return c[d]
 
